@@ -33,6 +33,7 @@ def run(unit, functions, repo, scratch, timeout=1800, deep=False):
         hf.write("\n// appended by vx/bounded.py: the case being exercised, printed by the runner's panic hook\n"
                  "pub static VERIF_CASE: std::sync::Mutex<String> = std::sync::Mutex::new(String::new());\n"
                  "pub static VERIF_CASES: std::sync::atomic::AtomicUsize = std::sync::atomic::AtomicUsize::new(0);\n"
+                 "#[allow(dead_code)]\npub fn verif_scale(n: u64) -> u64 { n * std::env::var(\"VERIF_BOUNDED_SCALE\").ok().and_then(|x| x.parse::<u64>().ok()).unwrap_or(1) }\n"
                  "#[allow(dead_code)]\npub fn verif_case(s: String) { VERIF_CASES.fetch_add(1, std::sync::atomic::Ordering::Relaxed); if let Ok(mut g) = VERIF_CASE.lock() { *g = s; } }\n")
     host = None
     for line in open(src):
